@@ -167,6 +167,19 @@ SIMW_FN __m256i _mm256_unpacklo_epi64(__m256i a, __m256i b) { return _mm256_unpa
 SIMW_FN __m256i _mm256_unpackhi_epi64(__m256i a, __m256i b) { return _mm256_unpackhi_pd(a, b); }
 SIMW_FN __m256i _mm256_blend_epi64_(__m256i a, __m256i b, int imm) { __m256i r; for (int i = 0; i < 4; i++) r.v[i] = ((imm >> i) & 1) ? b.v[i] : a.v[i]; return r; }
 SIMW_FN __m256i _mm256_blendv_epi8(__m256i a, __m256i b, __m256i m) { __m256i r; for (int i = 0; i < 4; i++) r.v[i] = ((a.v[i] & ~m.v[i]) | (b.v[i] & m.v[i])) & simw::LM; return r; }
+// whole-register tests and masks (decisions taken on them are part of the path signature of lane 0)
+SIMW_FN int _mm256_testz_si256(__m256i a, __m256i b) { int z = 1; for (int i = 0; i < 4; i++) if (a.v[i] & b.v[i] & simw::LM) z = 0; simw::sigbit(0, (unsigned)z); return z; }
+SIMW_FN int _mm256_testc_si256(__m256i a, __m256i b) { int c = 1; for (int i = 0; i < 4; i++) if (~a.v[i] & b.v[i] & simw::LM) c = 0; simw::sigbit(0, (unsigned)c); return c; }
+SIMW_FN int _mm256_movemask_pd(__m256i a) { int m = 0; for (int i = 0; i < 4; i++) if (a.v[i] & simw::LM & ~(simw::LM >> 1)) m |= 1 << i; return m; }
+SIMW_FN __m256i _mm256_max_epu32(__m256i a, __m256i b) { __m256i r; for (int i = 0; i < 4; i++) r.v[i] = simw::mk(simw::hi(a.v[i]) > simw::hi(b.v[i]) ? simw::hi(a.v[i]) : simw::hi(b.v[i]), simw::lo(a.v[i]) > simw::lo(b.v[i]) ? simw::lo(a.v[i]) : simw::lo(b.v[i])); return r; }
+SIMW_FN __m256i _mm256_min_epu32(__m256i a, __m256i b) { __m256i r; for (int i = 0; i < 4; i++) r.v[i] = simw::mk(simw::hi(a.v[i]) < simw::hi(b.v[i]) ? simw::hi(a.v[i]) : simw::hi(b.v[i]), simw::lo(a.v[i]) < simw::lo(b.v[i]) ? simw::lo(a.v[i]) : simw::lo(b.v[i])); return r; }
+SIMW_FN __m256i _mm256_add_epi32(__m256i a, __m256i b) { __m256i r; for (int i = 0; i < 4; i++) r.v[i] = simw::mk(simw::hi(a.v[i]) + simw::hi(b.v[i]), simw::lo(a.v[i]) + simw::lo(b.v[i])); return r; }
+SIMW_FN __m256i _mm256_sub_epi32(__m256i a, __m256i b) { __m256i r; for (int i = 0; i < 4; i++) r.v[i] = simw::mk(simw::hi(a.v[i]) - simw::hi(b.v[i]), simw::lo(a.v[i]) - simw::lo(b.v[i])); return r; }
+SIMW_FN __m256i _mm256_cmpeq_epi32(__m256i a, __m256i b) { __m256i r; for (int i = 0; i < 4; i++) r.v[i] = simw::mk(simw::hi(a.v[i]) == simw::hi(b.v[i]) ? ~0ULL : 0, simw::lo(a.v[i]) == simw::lo(b.v[i]) ? ~0ULL : 0); return r; }
+SIMW_FN __m512i _mm512_min_epu64(__m512i a, __m512i b) { __m512i r; SIMW_LOOP8(((a.v[i] & simw::LM) < (b.v[i] & simw::LM)) ? a.v[i] : b.v[i]); return r; }
+SIMW_FN __m512i _mm512_max_epu64(__m512i a, __m512i b) { __m512i r; SIMW_LOOP8(((a.v[i] & simw::LM) > (b.v[i] & simw::LM)) ? a.v[i] : b.v[i]); return r; }
+SIMW_FN __m512i _mm512_andnot_si512(__m512i a, __m512i b) { __m512i r; SIMW_LOOP8(~a.v[i] & b.v[i]); return r; }
+SIMW_FN __m512i _mm512_ternarylogic_epi64(__m512i a, __m512i b, __m512i c, int imm) { __m512i r; for (int i = 0; i < 8; i++) { uint64_t o = 0; for (int bit = 0; bit < 64; bit++) { int idx = (int)(((a.v[i] >> bit) & 1) << 2 | ((b.v[i] >> bit) & 1) << 1 | ((c.v[i] >> bit) & 1)); if ((imm >> idx) & 1) o |= 1ULL << bit; } r.v[i] = o & simw::LM; } return r; }
 SIMW_FN __m256i _mm256_cmpeq_epi64(__m256i a, __m256i b) { __m256i r; for (int i = 0; i < 4; i++) { bool e = (a.v[i] & simw::LM) == (b.v[i] & simw::LM); simw::sigbit(i, e); r.v[i] = e ? simw::LM : 0; } return r; }
 SIMW_FN __m256i _mm256_shuffle_epi32(__m256i a, int imm)
 {
